@@ -1,12 +1,15 @@
-"""C17 — collision fixing: the interval set `Zones` (DESIGN.md §6 C17; partial)."""
+"""C17 — collision fixing: the shift collider and its interval set `Zones` (DESIGN.md §0.2, §6 C17)."""
 from fractions import Fraction
 import lib
 
 GEN_MODULES = []
 ASSUMPTIONS = ["interval end points and cost inputs are small integers, so every float operation of Zones except the division in test_position is exact",
                "closest results whose exact value is not a float-exact dyadic rational are compared only approximately (counted as 'inexact_division_cases')",
-               "only the interval-set sentence of the property is decided here; ShiftCollider/KernCollider geometry (limit containment, truth of the resolved verdict) is not covered"]
-TRUSTED = ["hand-written model GrVerif/Model/Zones.lean (tied by correspondence on operation sequences)"]
+               "collider: octaboxes, origins, limits, margins, shifts and offsets are small integers (exact float arithmetic); the code's diagonal margin margin/ISQRT2 is irrational, so the diagonal axes, the isCol flags and the result are compared with the model only for margin 0 (axes x and y always); the oracle on the implementation's answer applies to every case",
+               "not modelled: sequence-order regions (orderFlags), exclusion glyphs, KernCollider, the neighbour selection of Pass::resolveCollisions"]
+TRUSTED = ["hand-written models GrVerif/Model/Zones.lean and GrVerif/Model/Collider.lean (tied by correspondence on operation sequences / arrangements)",
+           "harness/h_coll.cpp overwrites the octaboxes of carrier glyphs of AwamiNastaliq-Regular.ttf and drives ShiftCollider as Pass::resolveCollisions does",
+           "the python octabox oracle (exact rationals) for the collider clauses"]
 
 
 def parse(out):
@@ -114,8 +117,210 @@ def run(ctx):
         res.count("ops<=8" if l.count(";") < 8 else "ops>8")
     res.samples = [{"in": lines[0], "impl": impl[0], "model": model[0]}]
     res.extra["inexact_division_cases"] = inexact
+    collider(ctx, res, r)
     return res.as_dict()
 
 
+# ---------------------------------------------------------------------------------------------------------------------
+# the shift collider: ShiftCollider::initSlot / mergeSlot / resolve against Model/Collider.lean, and the property's two
+# collider clauses evaluated on the implementation's own answer
+
+def gen_box(r, arbitrary=False):
+    xi = r.randrange(-60, 40); xa = xi + r.randrange(1, 80)
+    yi = r.randrange(-60, 40); ya = yi + r.randrange(1, 80)
+    if arbitrary:
+        si = r.randrange(-120, 60); sa = si + r.randrange(1, 160)
+        di = r.randrange(-120, 60); da = di + r.randrange(1, 160)
+    else:
+        smin, smax, dmin, dmax = xi + yi, xa + ya, xi - ya, xa - yi
+        cs, cd = (smax - smin) // 3, (dmax - dmin) // 3
+        si = smin + r.randrange(0, cs + 1); sa = smax - r.randrange(0, cs + 1)
+        di = dmin + r.randrange(0, cd + 1); da = dmax - r.randrange(0, cd + 1)
+    return [xi, yi, xa, ya, si, di, sa, da]
+
+
+def sub_boxes(r, b, k):
+    """k sub-boxes roughly tiling the box (they may stick out a little, as quantised boxes do in fonts)"""
+    out = []
+    for j in range(k):
+        x0 = b[0] + (b[2] - b[0]) * j // k - r.randrange(0, 3); x1 = b[0] + (b[2] - b[0]) * (j + 1) // k + r.randrange(0, 3)
+        y0 = b[1] + r.randrange(0, max(1, (b[3] - b[1]) // 2)); y1 = b[3] - r.randrange(0, max(1, (b[3] - b[1]) // 3))
+        if x1 <= x0: x1 = x0 + 1
+        if y1 <= y0: y1 = y0 + 1
+        out.append([x0, y0, x1, y1, x0 + y0, x0 - y1, x1 + y1, x1 - y0])
+    return out
+
+
+# minimised past failures run first (left-to-right run with a non-zero offset: fixed by c92f57ed)
+COLL_CORPUS = ["coll 0 5 0 0 -111,-22,111,22 0,0 105,0 12,20,83,39,40,-10,105,60 92,15;-37,-49,-20,6,-65,-35,-22,25|-15,9;-56,-41,14,36,-97,-45,31,45",
+               "coll 0 0 0 0 -61,-9,61,9 -33,0 60,0 -54,-2,15,29,-27,-60,24,-13 26,-11;-56,8,-42,22,-48,-78,-21,-56|-45,3;21,-3,80,75,25,-36,119,44|-105,19;24,-21,51,-20,5,47,22,64"]
+
+
+def gen_pressure(r):
+    """a neighbour on the target's current place pushes it towards another one near the far side of a flat limit"""
+    dirn = r.choice([0, 0, 1])
+    trx = r.randrange(60, 200); try_ = r.randrange(5, 30)
+    blx = -trx if dirn == 0 else -r.randrange(60, 200)
+    bly = -try_
+    offx = r.randrange(blx + 1, trx) if r.random() < 0.8 else 0
+    offy = 0
+    shx = r.randrange(blx - offx, trx - offx + 1) if r.random() < 0.5 else 0
+    shy = 0
+    tx, ty = offx + shx, offy + shy
+    nbs = ["%d,%d;%s" % (tx + r.randrange(-20, 21), ty + r.randrange(-20, 21), ",".join(map(str, gen_box(r)))),
+           "%d,%d;%s" % (r.choice([r.randrange(blx - 60, blx + abs(offx) + 20), r.randrange(trx - abs(offx) - 20, trx + 60)]), ty + r.randrange(-20, 21), ",".join(map(str, gen_box(r))))]
+    if r.random() < 0.5:
+        nbs.append("%d,%d;%s" % (r.randrange(blx - 60, trx + 60), ty + r.randrange(-30, 31), ",".join(map(str, gen_box(r)))))
+    return "coll %d %d 0 %d %d,%d,%d,%d %d,%d %d,%d %s %s" % (dirn, r.choice([0, 0, 5]), r.choice([0, 1]), blx, bly, trx, try_, shx, shy, offx, offy,
+                                                             ",".join(map(str, gen_box(r))), "|".join(nbs))
+
+
+def gen_coll(r, count):
+    lines = list(COLL_CORPUS)
+    for _ in range(count):
+        if r.random() < 0.3:
+            lines.append(gen_pressure(r))
+            continue
+        dirn = 1 if r.random() < 0.7 else 0
+        margin = r.choice([0, 0, 0, 5, 10, 20])
+        mwt = r.choice([0, 1, 1, 3])
+        trx, try_ = r.randrange(10, 200), r.randrange(10, 200)
+        blx = -trx if dirn == 0 else -r.randrange(10, 200)       # left-to-right runs only with x-symmetric limits (the property's quantifier)
+        bly = -r.randrange(10, 200)
+        if r.random() < 0.5:
+            offx = offy = 0
+        else:
+            offx, offy = r.randrange(blx, trx + 1), r.randrange(bly, try_ + 1)
+        if r.random() < 0.5:
+            shx = shy = 0
+        else:
+            shx, shy = r.randrange(blx - offx, trx - offx + 1), r.randrange(bly - offy, try_ - offy + 1)
+        tb = gen_box(r, r.random() < 0.1)
+        nbs = []
+        used = {0: 1}
+        for _ in range(r.randrange(1, 4)):
+            b = gen_box(r, r.random() < 0.1)
+            k = r.choice([0, 0, 0, 1, 2, 3])
+            if used.get(k, 0) >= 5:
+                k = 0
+            used[k] = used.get(k, 0) + 1
+            # mostly close to the target's current position
+            tx, ty = offx + shx, offy + shy
+            if r.random() < 0.8:
+                sx, sy = tx + r.randrange(-90, 91), ty + r.randrange(-90, 91)
+            else:
+                sx, sy = r.randrange(-400, 401), r.randrange(-400, 401)
+            nbs.append(";".join(["%d,%d" % (sx, sy), ",".join(map(str, b))] + [",".join(map(str, sb)) for sb in sub_boxes(r, b, k)]))
+        lines.append("coll %d %d 0 %d %d,%d,%d,%d %d,%d %d,%d %s %s" % (dirn, margin, mwt, blx, bly, trx, try_, shx, shy, offx, offy, ",".join(map(str, tb)), "|".join(nbs)))
+    return lines
+
+
+def placed(b, x, y):
+    return [(b[0] + x, b[2] + x), (b[1] + y, b[3] + y), (b[4] + x + y, b[6] + x + y), (b[5] + x - y, b[7] + x - y)]
+
+
+def overlap_depth(a, b):
+    """> 0 iff the open octaboxes overlap (all four projections); slanted axes count half"""
+    d = None
+    for k, ((ai, aa), (bi, ba)) in enumerate(zip(a, b)):
+        t = min(aa, ba) - max(ai, bi)
+        if k >= 2:
+            t = t / 2
+        d = t if d is None or t < d else d
+    return d
+
+
+def coll_holds(line, out):
+    """the collider clauses of C17 on the implementation's answer: (L) offset + shift inside the limit rectangle,
+    (R) resolved => no overlap with any neighbour within reach"""
+    if out.startswith("CRASH") or out == "fault":
+        return False, "crash / sanitizer fault in the collider"
+    if out == "bad-op":
+        return None, ""
+    w = line.split()
+    dirn, margin = int(w[1]), int(w[2])
+    blx, bly, trx, try_ = map(int, w[5].split(","))
+    shx, shy = map(int, w[6].split(","))
+    offx, offy = map(int, w[7].split(","))
+    tb = list(map(int, w[8].split(",")))
+    res = out.rsplit("res=", 1)[1].split(",")
+    try:
+        rx, ry, iscol = Fraction(res[0]), Fraction(res[1]), res[2] == "1"
+    except Exception:
+        return False, "non-finite result " + out[-60:]
+    eps = Fraction(1, 1000)
+    # (L): the coordinates the fixer moved must end inside the limit; it starts inside by construction of the inputs
+    ox, oy = offx + rx, offy + ry
+    if not (blx - eps <= ox <= trx + eps and bly - eps <= oy <= try_ + eps) and not iscol:
+        return False, "offset + shift = (%s,%s) outside the limit rectangle (%d,%d)-(%d,%d)" % (ox, oy, blx, bly, trx, try_)
+    if iscol:
+        return True, ""
+    # the limit rectangle in the frame of the glyph's anchor (limit - offset); left-to-right runs have x-symmetric limits
+    lblx, lbly, ltrx, ltry = blx - offx, bly - offy, trx - offx, try_ - offy
+    tp = placed(tb, ox, oy)
+    for nb in w[9].split("|"):
+        parts = nb.split(";")
+        sx, sy = map(int, parts[0].split(","))
+        b = list(map(int, parts[1].split(",")))
+        reach = (sx + b[2] + margin >= lblx and sx + b[0] - margin <= ltrx) or (sy + b[3] + margin >= lbly and sy + b[1] - margin <= ltry)
+        if not reach:
+            continue
+        dm = overlap_depth(tp, placed(b, sx, sy))
+        subs = [list(map(int, p.split(","))) for p in parts[2:]]
+        ds = [min(dm, overlap_depth(tp, placed(sb, sx, sy))) for sb in subs] if subs else [dm]
+        if max(ds) > eps:
+            return False, "reported resolved at shift (%s,%s) but the target still overlaps the neighbour at (%d,%d) by %s units" % (rx, ry, sx, sy, max(ds))
+    return True, ""
+
+
+def coll_same(line, impl, model):
+    """axes 0 and 1 exactly; the diagonal axes and the result only for margin 0 (the code's diagonal margin is margin/ISQRT2);
+    results approximately when the exact value is not a float-exact dyadic rational"""
+    if impl == model:
+        return True
+    try:
+        pi, pm = impl.split(" | "), model.split(" | ")
+        if len(pi) != 6 or len(pm) != 6 or pi[1:3] != pm[1:3]:
+            return False
+        if int(line.split()[2]) != 0:
+            return True           # the `col` flags and the result also depend on the diagonal axes
+        if pi[0] != pm[0]:
+            return False
+        if pi[3:5] != pm[3:5]:
+            return False
+        a, b = pi[5][4:].split(","), pm[5][4:].split(",")
+        if a[2] != b[2]:
+            return False
+        for x, y in zip(a[:2], b[:2]):
+            fx, fy = Fraction(x), Fraction(y)
+            if fx != fy and not ((not pow2(fy.denominator) or fy.denominator > 2 ** 20) and abs(fx - fy) <= abs(fy) * Fraction(1, 2 ** 18) + Fraction(1, 2 ** 18)):
+                return False
+        return True
+    except Exception:
+        return False
+
+
+def collider(ctx, res, r):
+    exe = lib.build_harness("h_coll")
+    font = str(lib.REPO / "tests" / "fonts" / "AwamiNastaliq-Regular.ttf")
+    lines = gen_coll(r, 6000 if ctx.quick() else 300000)
+    impl = lib.run_lines([exe, font], lines, per_chunk=500)
+    model = lib.run_lines([lib.driver_path(), "coll"], lines, per_chunk=500) if ctx.model_ok else [None] * len(lines)
+    res.harness.append("h_coll/coll")
+    res.rules.append("collider: a target octabox and 1..3 neighbour octaboxes (0..3 sub-boxes each; mostly consistent slant boxes, some arbitrary), "
+                     "origins near and far, limits (right-to-left any, left-to-right x-symmetric), margins 0..20, margin weights 0..3, current shifts and offsets inside the limit; "
+                     "30% 'pressure' arrangements (one neighbour on the target's place, another near the far side of a flat limit, non-zero offsets)")
+    for l, i, m in zip(lines, impl, model):
+        res.evaluations += 1
+        res.distinct.add(l)
+        ok, why = coll_holds(l, i)
+        res.count("coll:" + ("crash" if i.startswith(("CRASH", "fault")) else "unresolved" if i.endswith(",1") else "resolved") + (":margin" if l.split()[2] != "0" else ""))
+        if ok is False:
+            res.failures.append({"harness": "h_coll", "mode": "coll", "line": l, "impl": i, "model": m, "why": why, "exe_args": [font]})
+        if m is not None and not coll_same(l, i, m):
+            res.disagreements.append({"harness": "h_coll", "mode": "coll", "line": l, "impl": i, "model": m, "explained_by_failure": ok is False, "exe_args": [font]})
+    res.samples.append({"in": lines[0][:300], "impl": impl[0][:300], "model": (model[0] or "")[:300]})
+
+
 def replay(ctx, obj):
-    return lib.replay_lines(ctx, obj, {"zones": lambda l, o: (None, "")})
+    return lib.replay_lines(ctx, obj, {"zones": lambda l, o: (None, ""), "coll": coll_holds})
